@@ -148,6 +148,12 @@ def ev(case, rec):
                     continue
                 gd, b12, b21, lsf = r
                 rec.nontriv((south, z1, e1, n1, b, L, vname))
+                if L == 100.0:
+                    for sp in (hemi.upper(), hemi.capitalize()):
+                        stf, rf = rec.call(vincinv_utm, float(z1), e1, n1, z2, ee2, nn2, sp)
+                        if stf != 'ok' or tuple(rf) != tuple(r):
+                            rec.fail('hemisphere spelling %r / zone given as float changes the result' % sp, site='geodesy:vincinv_utm:input-form',
+                                     observed=rf, expected=list(r), case=one, coords=co)
                 rec.state(tuple(float(v).hex() for v in r))
                 s_ex, a12, a2f = inverse_exact(la1, lo1, la2g, lo2g)
                 bad = False
